@@ -189,6 +189,24 @@ int __wrap_uncompress(Bytef *dest, uLongf *destLen, const Bytef *source, uLong s
   fflush(stdout);
   return rc;
 }
+int __real_creat(const char *p, mode_t m);
+int __wrap_creat(const char *p, mode_t m) {
+  int fd;
+  if (in_req) ev_path("creat", p);
+  fd = __real_creat(p, m);
+  if (in_req) { printf("= %s\n", fd >= 0 ? "ok" : "fail"); fflush(stdout); }
+  return fd;
+}
+struct utimbuf;
+int __real_utime(const char *p, const struct utimbuf *t);
+int __wrap_utime(const char *p, const struct utimbuf *t) {
+  int rc;
+  if (!in_req) return __real_utime(p, t);
+  ev_path("utime", p);
+  rc = __real_utime(p, t);
+  printf("= rc %d\n", rc < 0 ? -1 : rc); fflush(stdout);
+  return rc;
+}
 void __wrap_rfbCloseClient(rfbClientPtr cl) {
   if (in_req && cl == the_cl) ev("closeclient\n");
   __real_rfbCloseClient(cl);
@@ -225,6 +243,10 @@ static void build_sandbox(void) {
   for (i = 0; i < sizeof big; i++) big[i] = "abcdefghij\n"[i % 11];
   put_file("big.txt", big, sizeof big);
   put_file("exact.bin", big, 8192);
+  put_file("exact1.bin", big, 8193);
+  mk_dir("longnames");
+  { char ln[300]; strcpy(ln, "longnames/"); memset(ln + 10, 'n', 255); ln[265] = 0; put_file(ln, "x", 1);
+    strcpy(ln, "longnames/"); memset(ln + 10, 'm', 100); ln[110] = 0; put_file(ln, "y", 1); }
   put_file("com,ma.txt", "comma\n", 6);
   put_file("st*ar.txt", "star\n", 5);
   put_file("empty.txt", "", 0);
@@ -245,6 +267,32 @@ static size_t unhex(const char *h, unsigned char **out) {
 static rfbScreenInfoPtr screen = NULL;
 static int peer = -1; static vs_buf pb = {0};
 
+/* like vs_connect_raw, but the client's version line is already in the socket when rfbNewClient
+ * peeks for a WebSocket handshake (saves its 100 ms wait per connection) */
+static rfbClientPtr ft_connect(rfbScreenInfoPtr s, int *peerp) {
+  int sv[2], sz = 4 << 20;
+  if (socketpair(AF_UNIX, SOCK_STREAM, 0, sv) < 0) return NULL;
+  fcntl(sv[1], F_SETFL, fcntl(sv[1], F_GETFL) | O_NONBLOCK);
+  setsockopt(sv[0], SOL_SOCKET, SO_SNDBUF, &sz, sizeof sz); setsockopt(sv[1], SOL_SOCKET, SO_RCVBUF, &sz, sizeof sz);
+  setsockopt(sv[1], SOL_SOCKET, SO_SNDBUF, &sz, sizeof sz); setsockopt(sv[0], SOL_SOCKET, SO_RCVBUF, &sz, sizeof sz);
+  *peerp = sv[1];
+  __real_write(sv[1], "RFB 003.008\n", 12);
+  return rfbNewClient(s, sv[0]);
+}
+/* security type None + ClientInit, the version line having been sent by ft_connect */
+static int ft_handshake_none(rfbScreenInfoPtr s, int p, vs_buf *b) {
+  unsigned char m[4];
+  vs_pump(s, 1, &p, b);
+  if (b->n - b->rd < 12 + 2) return -1;
+  b->rd += 12; { unsigned nt = b->p[b->rd]; b->rd += 1 + nt; }
+  m[0] = 1; vs_write(p, m, 1); vs_pump(s, 1, &p, b);
+  if (b->n - b->rd < 4 || vs_get32(b->p + b->rd) != 0) return -2;
+  b->rd += 4;
+  m[0] = 1; vs_write(p, m, 1); vs_pump(s, 1, &p, b);
+  if (b->n - b->rd < 24) return -3;
+  return 0;
+}
+
 static void state_line(void) {
   rfbClientPtr cl = the_cl;
   flush_tx();
@@ -262,8 +310,8 @@ static void do_cfg(char *line) {
   else { unsigned char *d; unhex(tok[3], &d); setenv("HOME", (char *)d, 1); }
   if (!screen) {
     screen = vs_screen(16, 16, 4);
-    the_cl = vs_connect_raw(screen, &peer);
-    if (!the_cl || vs_handshake_none(screen, peer, &pb, 1) != 0) { puts("?? handshake"); fflush(stdout); _exit(3); }
+    the_cl = ft_connect(screen, &peer);
+    if (!the_cl || ft_handshake_none(screen, peer, &pb) != 0) { puts("?? handshake"); fflush(stdout); _exit(3); }
     cl_sock = the_cl->sock;
   }
   screen->permitFileTransfer = atoi(tok[1]) ? TRUE : FALSE;
@@ -328,21 +376,21 @@ void rfbRegisterTightVNCFileTransferExtension(void);
 void EnableFileTransfer(rfbBool enable);
 int SetFtpRoot(char *path);
 static void do_tight(char *line) {
-  char *tok[8]; int n = 0; char *sv = NULL, *t; unsigned char *suf, *path; size_t plen;
-  char ftproot[5000]; unsigned char m[8]; int tpeer; vs_buf b = {0}; rfbClientPtr cl; rfbScreenInfoPtr s;
-  for (t = strtok_r(line, " \n", &sv); t && n < 8; t = strtok_r(NULL, " \n", &sv)) tok[n++] = t;
+  char *tok[64]; int n = 0, k; char *sv = NULL, *t; unsigned char *suf;
+  char ftproot[5000]; unsigned char m[16]; int tpeer; vs_buf b = {0}; rfbClientPtr cl; rfbScreenInfoPtr s;
+  for (t = strtok_r(line, " \n", &sv); t && n < 64; t = strtok_r(NULL, " \n", &sv)) tok[n++] = t;
   puts("tight"); fflush(stdout);
   if (n < 6) { puts("?? tight"); return; }
-  unhex(tok[3], &suf); plen = unhex(tok[5], &path);
+  unhex(tok[3], &suf);
   snprintf(ftproot, sizeof ftproot, "%s%s", sb, (char *)suf);
   rfbRegisterTightVNCFileTransferExtension();
   s = vs_screen(16, 16, 4);
   SetFtpRoot(ftproot);
   EnableFileTransfer(atoi(tok[1]) ? TRUE : FALSE);
-  cl = vs_connect_raw(s, &tpeer);
+  cl = ft_connect(s, &tpeer);
   if (!cl) { puts("?? noclient"); return; }
   the_cl = cl; cl_sock = cl->sock;
-  vs_write(tpeer, "RFB 003.008\n", 12); vs_pump(s, 1, &tpeer, &b);
+  vs_pump(s, 1, &tpeer, &b);
   if (b.n < 12 + 2) { puts("?? hs1"); return; }
   m[0] = 16; vs_write(tpeer, m, 1); vs_pump(s, 1, &tpeer, &b);          /* security type Tight */
   /* server: nTunnelTypes(4)=0, then nAuthTypes(4) [+16 bytes each] */
@@ -354,15 +402,31 @@ static void do_tight(char *line) {
   m[0] = 1; vs_write(tpeer, m, 1); vs_pump(s, 1, &tpeer, &b);                     /* ClientInit */
   cl->viewOnly = atoi(tok[2]) ? TRUE : FALSE;
   printf("state %d\n", cl->state == RFB_NORMAL);
-  { unsigned char req[8]; size_t rl;
-    if (!strcmp(tok[4], "list")) { req[0] = 130; req[1] = 0; vs_put16(req + 2, (unsigned)plen); rl = 4; }
-    else { req[0] = 136; req[1] = 0; vs_put16(req + 2, (unsigned)plen); rl = 4; }
-    vs_write(tpeer, req, rl); vs_write(tpeer, path, plen);
+  /* the messages: <kind> <arg-hex> pairs */
+  for (k = 4; k + 1 < n; k += 2) {
+    unsigned char *arg; size_t alen = unhex(tok[k + 1], &arg); const char *kind = tok[k];
+    printf("m %s\n", kind); fflush(stdout);
+    if (cl->sock == RFB_INVALID_SOCKET) { puts("dead"); continue; }
+    memset(m, 0, sizeof m);
+    if (!strcmp(kind, "list")) { m[0] = 130; vs_put16(m + 2, (unsigned)alen); vs_write(tpeer, m, 4); vs_write(tpeer, arg, alen); }
+    else if (!strcmp(kind, "mkdir")) { m[0] = 136; vs_put16(m + 2, (unsigned)alen); vs_write(tpeer, m, 4); vs_write(tpeer, arg, alen); }
+    else if (!strcmp(kind, "download")) { m[0] = 131; vs_put16(m + 2, (unsigned)alen); vs_write(tpeer, m, 8); vs_write(tpeer, arg, alen); }
+    else if (!strcmp(kind, "upload")) { m[0] = 132; vs_put16(m + 2, (unsigned)alen); vs_write(tpeer, m, 8); vs_write(tpeer, arg, alen); }
+    else if (!strcmp(kind, "uploaddata") || !strcmp(kind, "uploaddatac")) {
+      m[0] = 133; m[1] = !strcmp(kind, "uploaddatac") ? 1 : 0; vs_put16(m + 2, (unsigned)alen); vs_put16(m + 4, (unsigned)alen);
+      vs_write(tpeer, m, 6); vs_write(tpeer, arg, alen); }
+    else if (!strcmp(kind, "uploaddone")) { m[0] = 133; vs_write(tpeer, m, 6); vs_put32(m, 1000000000u); vs_write(tpeer, m, 4); }
+    else if (!strcmp(kind, "uploadfail")) { m[0] = 135; vs_put16(m + 2, (unsigned)alen); vs_write(tpeer, m, 4); vs_write(tpeer, arg, alen); }
+    else if (!strcmp(kind, "dlcancel")) { m[0] = 134; vs_put16(m + 2, (unsigned)alen); vs_write(tpeer, m, 4); vs_write(tpeer, arg, alen); }
+    else { puts("?? kind"); continue; }
+    npend = 0; in_req = 1;
+    rfbProcessClientMessage(cl);
+    usleep(30000);                     /* a download runs in its own thread */
+    in_req = 0;
+    flush_tx();
+    pb.n = 0; pb.rd = 0; vs_drain(tpeer, &pb);
+    free(arg);
   }
-  npend = 0; in_req = 1;
-  rfbProcessClientMessage(cl);
-  in_req = 0;
-  flush_tx();
   printf("sock %d\n", cl->sock != RFB_INVALID_SOCKET); fflush(stdout);
 }
 
